@@ -111,7 +111,8 @@ let handle fields impl : string option * string list =
       | None -> if starts impl "ok" then ["findnodes-reply-malformed " ^ impl]
                 else if starts impl "panic" then ["findnodes-panic " ^ impl] else [] in
     (Some m, mons)
-  | ["pn"; _; _; ds; resph; _; ";"; senders; decs] ->
+  | "pq" :: _ when starts impl "unobserved" -> (None, [])
+  | [("pn" | "pq"); _; _; ds; resph; _; ";"; senders; decs] ->
     let (sender, _) = parse_rec senders in
     let dists = parse_dists ds in
     let resp = b (Util.bytes_of_hex resph) in
